@@ -107,6 +107,13 @@ CLAIMED.update({
          "Handler-supplied strings contain no NUL.",
          "TLA+ specs (PgWriter, PgOps.GrammarOK) + TLC model checking + replay on the real writer + TLC validation of "
          "the decoded output of the real server under all drivers", "4 C02"),
+ "C03": ("(a) PgReader: TLC enumerates message-size sequences around granule and limit and every small body x accessor-call "
+         "sequence; each is replayed on the real buffer.Reader over an io.Reader delivering 1 byte / random pieces / "
+         "everything per read (accessors on two consecutive messages with the same body), and TLC validates every outcome. "
+         "(b) random sessions of all protocol families run on the real server under five segmentations of the same byte "
+         "stream; each run is validated by TLC against PgConn and the transcript digests must coincide.",
+         CONN_NOTE, "TLA+ specs (PgReader, PgConn) + TLC model checking + replay on the real Reader + TLC trace validation "
+         "of five segmentations per stream with transcript-digest equality", "4 C03"),
 })
 NOT_YET = "machinery for this property is not built yet in this revision (planned, see DESIGN.md section 4)"
 
